@@ -392,7 +392,7 @@ func init() {
 			"in selector syntax, aliases with the same hostile characters, ARRAY expressions nested to depth 4 (with literals containing brackets, " +
 			"identifiers containing brackets, FIRST/LAST over arrays), an optional WHERE, and a non-empty option set out of the 2^3-1 combinations; " +
 			"the variant (options on; double-quoted identifiers when PostgresEscapingDialect is on, [..] arrays when IdiomaticArrays is on, each " +
-			"also left in canonical spelling sometimes; quotes inside literals spelled \\' instead of '' in a third of the cases; a quarter of the cases first execute a query that the rewriters reject (dangling backslash, unbalanced bracket or quote) under all options; optional white space inside brackets) must behave exactly like the canonical query (no " +
+			"also left in canonical spelling sometimes; quotes inside literals spelled \\' instead of '' in a third of the cases; a quarter of the cases first execute a query that the rewriters reject (dangling backslash, unbalanced bracket or quote) under all options; optional white space inside brackets; a third of the cases first run the very same text under another option set; under Wrapped the input may carry a key `root` of its own and the query may read FROM an unqualified name or SELECT * FROM dual) must behave exactly like the canonical query (no " +
 			"options, backticks, ARRAY(..), input {\"root\": input} for Wrapped): same rows in the same order or both fail; pure string-literal " +
 			"items must echo exactly. Non-trivial: canonical query returns >=1 row and a literal/identifier/alias contains one of the hostile " +
 			"characters or an array nests >=2 deep.",
